@@ -329,3 +329,55 @@ func jsonEmbedded(rep *Report) {
 		}
 	}
 }
+
+// ---- C08 / C18: a nil pointer to a type with marshalling hooks, held in an INTERFACE position ----
+// (a nil pointer in an interface is not a nil interface: every such position must marshal to Nil,
+// whatever the level of indirection, and never call the value-receiver hook through the nil pointer)
+type valueHook struct{ N int }
+
+func (v valueHook) MarshalSB(ctx sb.Ctx, cont sb.Proc) sb.Proc {
+	return ctx.Marshal(ctx, reflect.ValueOf(v.N), cont)
+}
+
+type textHook struct{ N int }
+
+func (v textHook) MarshalText() ([]byte, error) { return []byte(fmt.Sprint(v.N)), nil }
+
+func typedNilHookInInterface(repM *Report) {
+	nils := []any{(*time.Time)(nil), (*valueHook)(nil), (*textHook)(nil), (**time.Time)(nil)}
+	for _, n := range nils {
+		boxed := n
+		var twice any = &boxed
+		positions := map[string]any{
+			"direct":             n,
+			"*any":               &boxed,
+			"**any":              &twice,
+			"[]any":              []any{n},
+			"struct{A any}":      struct{ A any }{n},
+			"map[string]any":     map[string]any{"k": n},
+			"[1]any":             [1]any{n},
+			"*struct{A any}":     &struct{ A any }{n},
+			"func() any (tuple)": func() any { return n },
+		}
+		for name, v := range positions {
+			ts, err := marshalTokens(v, nil)
+			repM.Evaluations++
+			repM.count("c08:nil-hook-in-interface")
+			desc := fmt.Sprintf("nil pointer with marshalling hooks in an interface position: %T as %s", n, name)
+			if classOf(err) == "EPanic" || classOf(err) == "EDiverge" {
+				repM.violate("C18", "marshal-panic", fmt.Sprintf("Marshal panicked: %v", err), desc)
+				repM.violate("C08", "indirection-changes-stream", fmt.Sprintf("a nil pointer marshals to Nil directly but panics in this position: %v", err), desc)
+				continue
+			}
+			nilCount := 0
+			for _, t := range ts {
+				if t.Kind == sb.KindNil {
+					nilCount++
+				}
+			}
+			if err != nil || nilCount != 1 {
+				repM.violate("C08", "indirection-changes-stream", fmt.Sprintf("expected exactly one Nil token for the nil pointer, got [%s] (%v)", descTokens(ts), err), desc)
+			}
+		}
+	}
+}
